@@ -222,31 +222,34 @@ theorem ReachP.stack_le {a b : GSt} (h : ReachP cx Pg a b) (hm : a.ms.stack.leng
 
 end Mach
 
-/-! ### worlds that differ in the representation of the scratch space only -/
+/-! ### worlds that differ in the representation of the scratch space only
 
-def SameW (a b : World) : Prop :=
-  (∀ s, getSlot a.scratch s = getSlot b.scratch s) ∧ b = { a with scratch := b.scratch }
+  `SameW I a b`: `b` is `a` with another scratch space that has the same content in every slot
+  outside `I`.  `I = []` for the scratch-slot convention; under the frame-pointer convention `I` is
+  the set of by-value parameter slots (the source semantics keeps parameters in scratch cells, the
+  generated code keeps them in the stack frame and never touches those slots). -/
 
-theorem SameW.refl (a : World) : SameW a a := ⟨fun _ => rfl, rfl⟩
+def SameW (I : List Nat) (a b : World) : Prop :=
+  (∀ s, s ∉ I → getSlot a.scratch s = getSlot b.scratch s) ∧ b = { a with scratch := b.scratch }
 
-theorem SameW.symm {a b : World} (h : SameW a b) : SameW b a := by
-  refine ⟨fun s => (h.1 s).symm, ?_⟩
+theorem SameW.refl (I : List Nat) (a : World) : SameW I a a := ⟨fun _ _ => rfl, rfl⟩
+
+theorem SameW.symm {I : List Nat} {a b : World} (h : SameW I a b) : SameW I b a := by
+  refine ⟨fun s hs => (h.1 s hs).symm, ?_⟩
   rw [h.2]
 
-theorem SameW.trans {a b c : World} (h1 : SameW a b) (h2 : SameW b c) : SameW a c := by
-  refine ⟨fun s => (h1.1 s).trans (h2.1 s), ?_⟩
+theorem SameW.trans {I : List Nat} {a b c : World} (h1 : SameW I a b) (h2 : SameW I b c) : SameW I a c := by
+  refine ⟨fun s hs => (h1.1 s hs).trans (h2.1 s hs), ?_⟩
   rw [h2.2, h1.2]
 
-theorem SameW.get {a b : World} (h : SameW a b) (s : Nat) : getSlot a.scratch s = getSlot b.scratch s := h.1 s
-
-theorem SameW.set {a b : World} (h : SameW a b) (s : Nat) (v : Val) :
-    SameW { a with scratch := setSlot a.scratch s v } { b with scratch := setSlot b.scratch s v } := by
-  refine ⟨fun x => ?_, ?_⟩
-  · simp only [getSlot_setSlot, h.1 x]
+theorem SameW.set {I : List Nat} {a b : World} (h : SameW I a b) (s : Nat) (v : Val) :
+    SameW I { a with scratch := setSlot a.scratch s v } { b with scratch := setSlot b.scratch s v } := by
+  refine ⟨fun x hx => ?_, ?_⟩
+  · simp only [getSlot_setSlot, h.1 x hx]
   · rw [h.2]
 
-theorem SameW.foldl {a b : World} (h : SameW a b) (l : List (Nat × Val)) :
-    SameW { a with scratch := l.foldl (fun sc (p : Nat × Val) => setSlot sc p.1 p.2) a.scratch }
+theorem SameW.foldl {I : List Nat} {a b : World} (h : SameW I a b) (l : List (Nat × Val)) :
+    SameW I { a with scratch := l.foldl (fun sc (p : Nat × Val) => setSlot sc p.1 p.2) a.scratch }
       { b with scratch := l.foldl (fun sc (p : Nat × Val) => setSlot sc p.1 p.2) b.scratch } := by
   induction l generalizing a b with
   | nil => exact h
@@ -257,77 +260,116 @@ theorem stores_simple (vs : List Nat) : ∀ x ∈ vs.map Instr.store, isSimple x
   obtain ⟨v, _, rfl⟩ := List.mem_map.mp hx
   rfl
 
-/-- a world with another scratch space of the same content -/
-theorem SameW.mkScratch {a : World} {sc : List (Nat × Val)} (h : ∀ s, getSlot a.scratch s = getSlot sc s) :
-    SameW a { a with scratch := sc } := ⟨h, rfl⟩
-
 def _root_.PyTealV.Comp.GSt.setW (a : GSt) (w : World) : GSt := { a with ms := { a.ms with world := w } }
 
-/-- outcomes equal up to the representation of the scratch space -/
-def OutEq : Outcome → Outcome → Prop
-  | .done v w, .done v' w' => v = v' ∧ SameW w w'
+/-- outcomes equal up to `SameW` -/
+def OutEq (I : List Nat) : Outcome → Outcome → Prop
+  | .done v w, .done v' w' => v = v' ∧ SameW I w w'
   | .fail f, .fail f' => f = f'
   | .outOfFuel, .outOfFuel => True
   | _, _ => False
 
+/-- no constraint on the source world -/
+def noInv : World → Prop := fun _ => True
+
+/-- the failures with which the machine may deviate from the source semantics: always the
+    operand-stack limit; for programs with run-time addressed slots (`vloads` / `vstores`, stage 3)
+    also the range check of `loads` / `stores` (`devDyn`) -/
+def ovfF : Fail := .logic "stack overflow"
+def rangeL : Fail := .logic "loads slot out of range"
+def rangeS : Fail := .logic "stores slot out of range"
+
+def devOvf : Fail → Prop := fun f => f = ovfF
+def devDyn : Fail → Prop := fun f => f = ovfF ∨ f = rangeL ∨ f = rangeS
+
 section Up
-variable (cx : Ctx) (Pg : PProg)
+variable (D : Fail → Prop) (I : List Nat) (cx : Ctx) (Pg : PProg)
 
-/-- from `a` (whose world component is the source world) the machine reaches `b`, for every
-    machine world equivalent to the source world — unless the operand stack overflows -/
-def ReachS (a b : GSt) : Prop :=
-  ∀ wm, SameW a.ms.world wm → a.ms.stack.length ≤ maxStack →
-    HaltsP cx Pg (a.setW wm) ovf ∨ ∃ wm', SameW b.ms.world wm' ∧ ReachP cx Pg (a.setW wm) (b.setW wm')
+/-- from `a` (whose world component is the source world, which satisfies `Ia`) the machine reaches
+    `b` (whose source world then satisfies `Ib`), for every machine world equivalent to the source
+    world — unless the operand stack overflows -/
+def ReachS (Ia Ib : World → Prop) (a b : GSt) : Prop :=
+  ∀ wm, SameW I a.ms.world wm → Ia a.ms.world → a.ms.stack.length ≤ maxStack →
+    (∃ f, D f ∧ HaltsP cx Pg (a.setW wm) (.fail f)) ∨
+    ∃ wm', SameW I b.ms.world wm' ∧ Ib b.ms.world ∧ ReachP cx Pg (a.setW wm) (b.setW wm')
 
-def HaltS (a : GSt) (o : Outcome) : Prop :=
-  ∀ wm, SameW a.ms.world wm → a.ms.stack.length ≤ maxStack →
-    HaltsP cx Pg (a.setW wm) ovf ∨ ∃ o', OutEq o o' ∧ HaltsP cx Pg (a.setW wm) o'
+def HaltS (Ia : World → Prop) (a : GSt) (o : Outcome) : Prop :=
+  ∀ wm, SameW I a.ms.world wm → Ia a.ms.world → a.ms.stack.length ≤ maxStack →
+    (∃ f, D f ∧ HaltsP cx Pg (a.setW wm) (.fail f)) ∨ ∃ o', OutEq I o o' ∧ HaltsP cx Pg (a.setW wm) o'
 
-def FailS (a : GSt) : Prop :=
-  ∀ wm, SameW a.ms.world wm → a.ms.stack.length ≤ maxStack → ∃ f, HaltsP cx Pg (a.setW wm) (.fail f)
+def FailS (Ia : World → Prop) (a : GSt) : Prop :=
+  ∀ wm, SameW I a.ms.world wm → Ia a.ms.world → a.ms.stack.length ≤ maxStack →
+    ∃ f, HaltsP cx Pg (a.setW wm) (.fail f)
 
-variable {cx Pg}
+variable {D I cx Pg}
 
-theorem ReachS.refl (a : GSt) : ReachS cx Pg a a := fun wm hw _ => .inr ⟨wm, hw, .refl _⟩
+theorem ReachS.refl {Ia : World → Prop} (a : GSt) : ReachS D I cx Pg Ia Ia a a :=
+  fun wm hw hi _ => .inr ⟨wm, hw, hi, .refl _⟩
 
-theorem ReachS.trans {a b c : GSt} (h1 : ReachS cx Pg a b) (h2 : ReachS cx Pg b c) : ReachS cx Pg a c := by
-  intro wm hw hm
-  rcases h1 wm hw hm with h | ⟨wm', hw', hr⟩
+theorem ReachS.trans {Ia Ib Ic : World → Prop} {a b c : GSt} (h1 : ReachS D I cx Pg Ia Ib a b)
+    (h2 : ReachS D I cx Pg Ib Ic b c) : ReachS D I cx Pg Ia Ic a c := by
+  intro wm hw hi hm
+  rcases h1 wm hw hi hm with h | ⟨wm', hw', hi', hr⟩
   · exact .inl h
   · have hb : b.ms.stack.length ≤ maxStack := hr.stack_le (a := a.setW wm) (b := b.setW wm') hm
-    rcases h2 wm' hw' hb with h | ⟨wm'', hw'', hr2⟩
-    · exact .inl (hr.halts h)
-    · exact .inr ⟨wm'', hw'', hr.trans hr2⟩
+    rcases h2 wm' hw' hi' hb with ⟨o, hd, h⟩ | ⟨wm'', hw'', hi'', hr2⟩
+    · exact .inl ⟨o, hd, hr.halts h⟩
+    · exact .inr ⟨wm'', hw'', hi'', hr.trans hr2⟩
 
-theorem ReachS.haltS {a b : GSt} {o} (h1 : ReachS cx Pg a b) (h2 : HaltS cx Pg b o) : HaltS cx Pg a o := by
-  intro wm hw hm
-  rcases h1 wm hw hm with h | ⟨wm', hw', hr⟩
+theorem ReachS.haltS {Ia Ib : World → Prop} {a b : GSt} {o} (h1 : ReachS D I cx Pg Ia Ib a b)
+    (h2 : HaltS D I cx Pg Ib b o) : HaltS D I cx Pg Ia a o := by
+  intro wm hw hi hm
+  rcases h1 wm hw hi hm with h | ⟨wm', hw', hi', hr⟩
   · exact .inl h
   · have hb : b.ms.stack.length ≤ maxStack := hr.stack_le (a := a.setW wm) (b := b.setW wm') hm
-    rcases h2 wm' hw' hb with h | ⟨o', ho, h⟩
-    · exact .inl (hr.halts h)
+    rcases h2 wm' hw' hi' hb with ⟨o, hd, h⟩ | ⟨o', ho, h⟩
+    · exact .inl ⟨o, hd, hr.halts h⟩
     · exact .inr ⟨o', ho, hr.halts h⟩
 
-theorem ReachS.failS {a b : GSt} (h1 : ReachS cx Pg a b) (h2 : FailS cx Pg b) : FailS cx Pg a := by
-  intro wm hw hm
-  rcases h1 wm hw hm with h | ⟨wm', hw', hr⟩
-  · exact ⟨_, h⟩
+theorem ReachS.failS {Ia Ib : World → Prop} {a b : GSt} (h1 : ReachS D I cx Pg Ia Ib a b)
+    (h2 : FailS I cx Pg Ib b) : FailS I cx Pg Ia a := by
+  intro wm hw hi hm
+  rcases h1 wm hw hi hm with ⟨o, hd, h⟩ | ⟨wm', hw', hi', hr⟩
+  · exact ⟨o, h⟩
   · have hb : b.ms.stack.length ≤ maxStack := hr.stack_le (a := a.setW wm) (b := b.setW wm') hm
-    obtain ⟨f, h⟩ := h2 wm' hw' hb
+    obtain ⟨f, h⟩ := h2 wm' hw' hi' hb
     exact ⟨f, hr.halts h⟩
 
-theorem HaltS.failS {a : GSt} {f} (h : HaltS cx Pg a (.fail f)) : FailS cx Pg a := by
-  intro wm hw hm
-  rcases h wm hw hm with h | ⟨o', ho, h⟩
-  · exact ⟨_, h⟩
+theorem HaltS.failS {Ia : World → Prop} {a : GSt} {f} (h : HaltS D I cx Pg Ia a (.fail f)) : FailS I cx Pg Ia a := by
+  intro wm hw hi hm
+  rcases h wm hw hi hm with ⟨o, _, h⟩ | ⟨o', ho, h⟩
+  · exact ⟨o, h⟩
   · cases o' with
     | fail f' => exact ⟨f', h⟩
     | done v w => exact ho.elim
     | outOfFuel => exact ho.elim
 
+/-- weaken the premise / strengthen the conclusion on the source worlds -/
+theorem ReachS.mono {Ia Ia' Ib Ib' : World → Prop} {a b : GSt} (h : ReachS D I cx Pg Ia Ib a b)
+    (h1 : Ia' a.ms.world → Ia a.ms.world) (h2 : Ia' a.ms.world → Ib b.ms.world → Ib' b.ms.world) :
+    ReachS D I cx Pg Ia' Ib' a b := by
+  intro wm hw hi hm
+  rcases h wm hw (h1 hi) hm with h | ⟨wm', hw', hi', hr⟩
+  · exact .inl h
+  · exact .inr ⟨wm', hw', h2 hi hi', hr⟩
+
+theorem HaltS.mono {Ia Ia' : World → Prop} {a : GSt} {o} (h : HaltS D I cx Pg Ia a o)
+    (h1 : Ia' a.ms.world → Ia a.ms.world) : HaltS D I cx Pg Ia' a o :=
+  fun wm hw hi hm => h wm hw (h1 hi) hm
+
+theorem FailS.mono {Ia Ia' : World → Prop} {a : GSt} (h : FailS I cx Pg Ia a)
+    (h1 : Ia' a.ms.world → Ia a.ms.world) : FailS I cx Pg Ia' a :=
+  fun wm hw hi hm => h wm hw (h1 hi) hm
+
 end Up
 
-/-! ### a routine of the program with its call stack -/
+/-! ### a routine of the program with its call stack
+
+  `ign`: the slots `SameW` ignores; `inv`: what is known about the source world while this
+  activation runs (frame-pointer convention: the parameter cells of the source semantics hold the
+  values of the stack frame); `base`: the part of the operand stack that belongs to the callers
+  and, under the frame-pointer convention, the arguments of this activation — every stack of
+  `ReachO / HaltO / Fails` is implicitly on top of it. -/
 
 structure MCtx where
   Pg : PProg
@@ -335,15 +377,38 @@ structure MCtx where
   cs : List GFrame
   G : Graph
   hG : Pg.graphOf r = some G
+  ign : List Nat := []
+  inv : World → Prop := noInv
+  base : List Val := []
+  dev : Fail → Prop := devOvf
+  devOvf : dev ovfF := by rfl
 
 def MCtx.st (X : MCtx) (p : GPt) (m : MS) : GSt := ⟨X.r, p, X.cs, m⟩
+
+/-- the invariant on the source world only looks at the ignored slots -/
+def MCtx.InvOK (X : MCtx) : Prop :=
+  ∀ w w' : World, (∀ s, s ∈ X.ign → getSlot w'.scratch s = getSlot w.scratch s) → X.inv w → X.inv w'
+
+theorem MCtx.InvOK.same {X : MCtx} (h : X.InvOK) {w w' : World} (hs : w'.scratch = w.scratch) (hi : X.inv w) :
+    X.inv w' := h w w' (fun s _ => by rw [hs]) hi
+
+theorem MCtx.InvOK.set {X : MCtx} (h : X.InvOK) {w : World} {v : Nat} {x : Val} (hv : v ∉ X.ign) (hi : X.inv w) :
+    X.inv { w with scratch := setSlot w.scratch v x } := by
+  refine h w _ (fun s hs => ?_) hi
+  simp only [getSlot_setSlot]
+  rw [if_neg]
+  intro h'; subst h'; exact hv hs
+
+/-- the machine state with the routine's base under the stack -/
+def MCtx.onBase (X : MCtx) (m : MS) : MS := { m with stack := m.stack ++ X.base }
 
 section InRoutine
 variable (cx : Ctx) (X : MCtx)
 
-def ReachO (p : GPt) (m : MS) (p' : GPt) (m' : MS) : Prop := ReachS cx X.Pg (X.st p m) (X.st p' m')
-def HaltO (p : GPt) (m : MS) (o : Outcome) : Prop := HaltS cx X.Pg (X.st p m) o
-def Fails (p : GPt) (m : MS) : Prop := FailS cx X.Pg (X.st p m)
+def ReachO (p : GPt) (m : MS) (p' : GPt) (m' : MS) : Prop :=
+  ReachS X.dev X.ign cx X.Pg X.inv X.inv (X.st p (X.onBase m)) (X.st p' (X.onBase m'))
+def HaltO (p : GPt) (m : MS) (o : Outcome) : Prop := HaltS X.dev X.ign cx X.Pg X.inv (X.st p (X.onBase m)) o
+def Fails (p : GPt) (m : MS) : Prop := FailS X.ign cx X.Pg X.inv (X.st p (X.onBase m))
 
 variable {cx X}
 
@@ -480,31 +545,46 @@ theorem blockP_halt {b : Nat} {ops : List Instr} {succ : Succ} {m : MS} {o : Out
   exact this
 
 /-- leaf lemma: a block of straight-line ops that, for every equivalent machine world, runs
-    through (or overflows) -/
+    through (or overflows); the stack is the one of the lemma on top of the routine's base -/
 theorem ReachO.of_block {b k : Nat} {ops : List Instr} {m m' : MS} (hb : Blk X.G b ops (.next k))
     (hsim : ∀ x ∈ ops, isSimple x = true)
-    (h : ∀ wm, SameW m.world wm → m.stack.length ≤ maxStack →
-      execOps cx ops { m with world := wm } = .halt ovf ∨
-      ∃ wm', SameW m'.world wm' ∧ execOps cx ops { m with world := wm } = .ok { m' with world := wm' }) :
+    (h : ∀ wm, SameW X.ign m.world wm → X.inv m.world → (m.stack ++ X.base).length ≤ maxStack →
+      execOps cx ops { X.onBase m with world := wm } = .halt ovf ∨
+      ∃ wm', SameW X.ign m'.world wm' ∧ X.inv m'.world ∧
+        execOps cx ops { X.onBase m with world := wm } = .ok { X.onBase m' with world := wm' }) :
     ReachO cx X ⟨b, 0⟩ m ⟨k, 0⟩ m' := by
-  intro wm hw hm
-  rcases h wm hw hm with h | ⟨wm', hw', h⟩
-  · exact .inl (blockP_halt hb hsim h)
-  · exact .inr ⟨wm', hw', blockP_next hb hsim h⟩
+  intro wm hw hi hm
+  rcases h wm hw hi hm with h | ⟨wm', hw', hi', h⟩
+  · exact .inl ⟨ovfF, X.devOvf, blockP_halt hb hsim h⟩
+  · exact .inr ⟨wm', hw', hi', blockP_next hb hsim h⟩
+
+/-- the same with an arbitrary permitted deviation -/
+theorem ReachO.of_block_dev {b k : Nat} {ops : List Instr} {m m' : MS} (hb : Blk X.G b ops (.next k))
+    (hsim : ∀ x ∈ ops, isSimple x = true)
+    (h : ∀ wm, SameW X.ign m.world wm → X.inv m.world → (m.stack ++ X.base).length ≤ maxStack →
+      (∃ f, X.dev f ∧ execOps cx ops { X.onBase m with world := wm } = .halt (.fail f)) ∨
+      ∃ wm', SameW X.ign m'.world wm' ∧ X.inv m'.world ∧
+        execOps cx ops { X.onBase m with world := wm } = .ok { X.onBase m' with world := wm' }) :
+    ReachO cx X ⟨b, 0⟩ m ⟨k, 0⟩ m' := by
+  intro wm hw hi hm
+  rcases h wm hw hi hm with ⟨f, hd, h⟩ | ⟨wm', hw', hi', h⟩
+  · exact .inl ⟨f, hd, blockP_halt hb hsim h⟩
+  · exact .inr ⟨wm', hw', hi', blockP_next hb hsim h⟩
 
 theorem Fails.of_block {b : Nat} {ops : List Instr} {succ : Succ} {m : MS} (hb : Blk X.G b ops succ)
     (hsim : ∀ x ∈ ops, isSimple x = true)
-    (h : ∀ wm, SameW m.world wm → ∃ f, execOps cx ops { m with world := wm } = .halt (.fail f)) :
+    (h : ∀ wm, SameW X.ign m.world wm → ∃ f, execOps cx ops { X.onBase m with world := wm } = .halt (.fail f)) :
     Fails cx X ⟨b, 0⟩ m := by
-  intro wm hw _
+  intro wm hw _ _
   obtain ⟨f, h⟩ := h wm hw
   exact ⟨f, blockP_halt hb hsim h⟩
 
 theorem HaltO.of_block {b : Nat} {ops : List Instr} {succ : Succ} {m : MS} {o : Outcome} (hb : Blk X.G b ops succ)
     (hsim : ∀ x ∈ ops, isSimple x = true)
-    (h : ∀ wm, SameW m.world wm → ∃ o', OutEq o o' ∧ execOps cx ops { m with world := wm } = .halt o') :
+    (h : ∀ wm, SameW X.ign m.world wm →
+      ∃ o', OutEq X.ign o o' ∧ execOps cx ops { X.onBase m with world := wm } = .halt o') :
     HaltO cx X ⟨b, 0⟩ m o := by
-  intro wm hw _
+  intro wm hw _ _
   obtain ⟨o', ho, h⟩ := h wm hw
   exact .inr ⟨o', ho, blockP_halt hb hsim h⟩
 
@@ -512,30 +592,67 @@ theorem HaltO.of_block {b : Nat} {ops : List Instr} {succ : Succ} {m : MS} {o : 
 theorem blockO_cond {b t f : Nat} {n : Nat} {r : List Val} {ic : List Nat} {bcs : List Bytes} {w : World}
     (hb : Blk X.G b [] (.cond t f)) :
     ReachO cx X ⟨b, 0⟩ ⟨.u n :: r, ic, bcs, w⟩ ⟨if n = 0 then f else t, 0⟩ ⟨r, ic, bcs, w⟩ := by
-  intro wm hw _
-  refine .inr ⟨wm, hw, .step ?_⟩
+  intro wm hw hi _
+  refine .inr ⟨wm, hw, hi, .step ?_⟩
   unfold Blk at hb
   cases n with
-  | zero => simp only [gstepP, MCtx.st, GSt.setW, X.hG, hb, List.getElem?_nil, if_true]
-  | succ n => simp only [gstepP, MCtx.st, GSt.setW, X.hG, hb, List.getElem?_nil, Nat.succ_ne_zero, if_false]
+  | zero => simp only [gstepP, MCtx.st, MCtx.onBase, GSt.setW, X.hG, hb, List.getElem?_nil, if_true, List.cons_append]
+  | succ n =>
+    simp only [gstepP, MCtx.st, MCtx.onBase, GSt.setW, X.hG, hb, List.getElem?_nil, Nat.succ_ne_zero, if_false,
+      List.cons_append]
 
 theorem blockO_cond_bytes {b t f : Nat} {x : Bytes} {r : List Val} {ic : List Nat} {bcs : List Bytes} {w : World}
     (hb : Blk X.G b [] (.cond t f)) :
     Fails cx X ⟨b, 0⟩ ⟨.b x :: r, ic, bcs, w⟩ := by
-  intro wm _ _
+  intro wm _ _ _
   refine ⟨.typeErr "branch on bytes", .step ?_⟩
   unfold Blk at hb
-  simp only [gstepP, MCtx.st, GSt.setW, X.hG, hb, List.getElem?_nil]
+  simp only [gstepP, MCtx.st, MCtx.onBase, GSt.setW, X.hG, hb, List.getElem?_nil, List.cons_append]
 
-/-- `retsub` (scratch-slot convention: the frame has no `proto`) pops the frame and continues at
-    the return point; the operand stack is untouched -/
-theorem retsub_reach {b k : Nat} {fr : GFrame} {cs' : List GFrame} {m : MS}
+/-- `retsub` when the frame has no `proto` (scratch-slot convention) pops the frame and continues
+    at the return point; the operand stack is untouched -/
+theorem retsub_step {b k : Nat} {fr : GFrame} {cs' : List GFrame} {m : MS}
     (hb : Blk X.G b [.retsub] (.next k)) (hcs : X.cs = fr :: cs') (hpr : fr.proto = none) :
-    ReachS cx X.Pg (X.st ⟨b, 0⟩ m) ⟨fr.ret, fr.pt, cs', m⟩ := by
-  intro wm hw _
-  refine .inr ⟨wm, hw, .step ?_⟩
+    gstepP cx X.Pg (X.st ⟨b, 0⟩ m) = .next ⟨fr.ret, fr.pt, cs', m⟩ := by
   unfold Blk at hb
-  simp only [gstepP, MCtx.st, GSt.setW, X.hG, hb, hcs, hpr, List.getElem?_cons_zero, execSimple]
+  simp only [gstepP, MCtx.st, X.hG, hb, hcs, hpr, List.getElem?_cons_zero, execSimple]
+
+theorem kept_eq {α} (top B : List α) (a r : Nat) (ha : a ≤ B.length) :
+    (((top ++ B).reverse.take (B.length - a)) ++ (((top ++ B).reverse.drop B.length).take r)).reverse
+      = (top.reverse.take r).reverse ++ B.drop a := by
+  rw [List.reverse_append (as := top)]
+  have h1 : (B.reverse ++ top.reverse).take (B.length - a) = B.reverse.take (B.length - a) := by
+    rw [List.take_append_of_le_length (by simp)]
+  have h2 : (B.reverse ++ top.reverse).drop B.length = top.reverse := by
+    have : B.length = B.reverse.length := by simp
+    rw [this, List.drop_left]
+  rw [h1, h2, List.reverse_append]
+  congr 1
+  rw [List.take_reverse, List.reverse_reverse]
+  congr 1
+  omega
+
+/-- `retsub` when the frame was prepared by `proto a r` (frame-pointer convention): the arguments
+    and everything above the frame base except the `r` entries directly above it are removed -/
+theorem retsub_step_proto {b k a r : Nat} {fr : GFrame} {cs' : List GFrame} {top : List Val} {ic bcs} {w : World}
+    (hb : Blk X.G b [.retsub] (.next k)) (hcs : X.cs = fr :: cs') (hpr : fr.proto = some (a, r))
+    (hh : fr.height = X.base.length) (ha : a ≤ X.base.length) (hr : r ≤ top.length) :
+    gstepP cx X.Pg (X.st ⟨b, 0⟩ ⟨top ++ X.base, ic, bcs, w⟩) =
+      .next ⟨fr.ret, fr.pt, cs', ⟨(top.reverse.take r).reverse ++ X.base.drop a, ic, bcs, w⟩⟩ := by
+  unfold Blk at hb
+  have h1 : ¬ (top ++ X.base).length < X.base.length + r := by simp; omega
+  have h2 : ¬ X.base.length < a := by omega
+  simp only [gstepP, MCtx.st, X.hG, hb, hcs, hpr, List.getElem?_cons_zero, execSimple, hh, h1, h2, if_false,
+    kept_eq top X.base a r ha]
+
+/-- `proto a r` marks the innermost frame -/
+theorem proto_step {b a r : Nat} {blk : Block} {fr : GFrame} {cs' : List GFrame} {m : MS}
+    (hb : X.G[b]? = some blk) (hx : blk.ops[0]? = some (.proto a r)) (hcs : X.cs = fr :: cs')
+    (hpr : fr.proto = none) (hlen : a ≤ m.stack.length) :
+    gstepP cx X.Pg (X.st ⟨b, 0⟩ m) = .next ⟨X.r, ⟨b, 1⟩, { fr with proto := some (a, r) } :: cs', m⟩ := by
+  have h1 : ¬ m.stack.length < a := by omega
+  simp only [gstepP, MCtx.st, X.hG, hb, hx, hcs, hpr, execSimple, Option.isSome_none, Bool.false_eq_true,
+    if_false, h1]
 
 /-- `callsub` pushes a frame and enters the callee -/
 theorem callsub_step {b i : Nat} {blk : Block} {l : String} {Gf : Graph} {sf : Nat} {m : MS}
